@@ -493,7 +493,7 @@ func RunSyncAll(spec SyncSpec, pre, after func(a *exh.Node)) (out []SyncObs) {
 		obs.Banned = len(connA.Peer.BlacklistedPeers()) > 0
 		bannedBefore = obs.Banned
 		obs.TempAfter = tempOf()
-		// byte-identical up to what finality legitimately changes: blocks applied and removed again may have advanced the
+		// byte-identical up to the temp table (observed separately) and what finality legitimately changes: blocks applied and removed again may have advanced the
 		// finalized height (never rolled back, key 1b) which prunes the state diffs (prefix 33) at or below it
 		dumpAfterKV := a.Dump()
 		finAfter, _ := a.Finalized()
@@ -503,7 +503,7 @@ func RunSyncAll(spec SyncSpec, pre, after func(a *exh.Node)) (out []SyncObs) {
 		}
 		obs.DBEqual = true
 		for _, k := range exh.DiffKeys(dumpBeforeKV, dumpAfterKV) {
-			if k == "1b" {
+			if k == "1b" || strings.HasPrefix(k, "07") { // temp blocks are compared separately (TempAfter)
 				continue
 			}
 			if strings.HasPrefix(k, "33") && len(k) == 10 && !present[k] {
